@@ -398,6 +398,19 @@ def c10f(ctx):
             ctx.fail(o, "(signature)", "WriteManager::submit_write_batch takes the batch by reference")
 
 
+def _carries_position(b, op):
+    """The operand is a CurrentBatch aggregate built in this body whose expected_epoch field is read from an expected_epoch."""
+    og = df.origins_of_operand(b, op)
+    aggs = [x for x in og if x.kind == "agg" and "CurrentBatch" in str(x.site.node["rv"].get("adt"))]
+    if not aggs or len(aggs) != len(og):
+        return False
+    for x in aggs:
+        ops = x.site.node["rv"]["ops"]
+        if len(ops) != 3 or "expected_epoch" not in df.access_path(b, ops[2]):
+            return False
+    return True
+
+
 def c10h(ctx):
     """`expected_epoch` is the committer's position in creation order.  It starts at the first epoch and moves by exactly one,
     in process_pending_commits, each time the batch of that epoch has been applied.  Any other write to it (taking it from
@@ -429,6 +442,32 @@ def c10h(ctx):
                     ctx.fail(o, site, "%s assigns CurrentBatch.expected_epoch something other than `expected_epoch + 1`: the committer's position in creation order may only advance by one, "
                              "after the expected batch was applied - taking it from anything else (an arriving task's epoch) lets a later-created batch overtake an earlier one that is still "
                              "being serialized" % b.name)
+    # the position also moves when the whole CurrentBatch it lives in is overwritten (mem::replace / swap / take on
+    # `&mut CurrentBatch`, `*self = ..`): a "fresh batch after every flush" written that way restarts the position at the
+    # constructor's value, after which no later batch is ever the expected one (all of them stay parked and are lost at drop)
+    whole = re.compile(r"^&mut (\w+::)*CurrentBatch<")
+    for b in prog.all_bodies(["qbice_storage"]):
+        if WB not in b.file:
+            continue
+        for s_ in b.calls_to(r"^core::mem::(replace|swap|take)$"):
+            for a_ in s_.node["args"][:2 if s_.node["fn"]["path"].endswith("swap") else 1]:
+                l = op_local(a_)
+                if l is not None and whole.search(str(b.local_ty(l))):
+                    n += 1
+                    ctx.touch(b)
+                    if s_.node["fn"]["path"].endswith("replace") and _carries_position(b, s_.node["args"][1]):
+                        continue        # the replacement is built in place with the old expected_epoch: the position is kept
+                    ctx.fail(o, s_, "%s overwrites a whole CurrentBatch (`%s`): expected_epoch - the committer's position in creation order - is replaced with it instead of "
+                             "advancing by one; after the first such flush no arriving batch carries the expected epoch any more, every later batch stays parked in the "
+                             "hold-back heap and is never written" % (b.name, s_.node["fn"]["path"].rsplit("::", 1)[-1]))
+        for bi, blk in enumerate(b.blocks):
+            if blk["cleanup"]:
+                continue
+            for si, st in enumerate(blk["stmts"]):
+                if st["k"] == "assign" and [str(e) for e in st["lhs"][1]] == ["deref"] and whole.search(str(b.local_ty(st["lhs"][0]))):
+                    n += 1
+                    ctx.touch(b)
+                    ctx.fail(o, Site(b, bi, si), "%s assigns a whole CurrentBatch through `&mut`: expected_epoch is replaced with it instead of advancing by one" % b.name)
     o.sites = n
     if n < 1:
         ctx.fail(o, "(program)", "anchor missing: no assignment to CurrentBatch.expected_epoch found")
